@@ -33,7 +33,11 @@ PURE = []
 COLL = ["(a)", "(a)+(b)", "(a)-(b)", "(a)&(b)", "(*)+(a)", "(*)-(a)",
         "(*)-(b)", "(**)-(a)", "(*)&(*)", "((a)+(b))-(a)", "(a.*)-(b.*)",
         "(a)-(a.a)", "(*)-(*.a)", "(a.*)+(b.*)", "(/a)-(/b)", "(/*)-(/a)",
-        "(/**)-(/*)", "(/*/*)-(/a)", "(a)-(b)-(a)", "(*)-((a)+(b))"]
+        "(/**)-(/*)", "(/*/*)-(/a)", "(a)-(b)-(a)", "(*)-((a)+(b))",
+        # the same hash gathered twice on the left of a subtraction
+        "(a)+(a)-(b)", "(/a)+(/a)-(/b)", "(*)+(*)-(a)", "(h)+(h)-(a)",
+        "(l)-(a)", "(l.*)-(a)", "(/l)-(/b)", "(a)+(b)-(a.a)",
+        "(d)+(l)-(a)", "(/l/*)+(/d)-(/a)"]
 CREATE_DOCS = []
 
 
@@ -49,6 +53,13 @@ def share_pack():
         out.append(("m", (("h", inner), ("a", 1000))))
         out.append(("l", (inner, ("m", (("a", 1000),)))))
         out.append(("m", (("a", ("l", (inner, inner))), ("b", inner))))
+        # one anchored hash aliased several times (the same object collected
+        # more than once)
+        out.append(("m", (("d", ("&", "M", inner)),
+                          ("l", ("l", (("*", "M"), ("*", "M")))),
+                          ("a", 1000), ("b", 2000))))
+        out.append(("m", (("a", ("&", "M", inner)), ("b", ("*", "M")),
+                          ("h", ("*", "M")))))
     return out
 
 
